@@ -17,7 +17,7 @@ META = {
         "(fields symbolic through the BER decoder) was tried and dropped: the exception's message formatting "
         "with symbolic operands costs ~6 s per path."),
     "bounds": ["box 1: error-status -2..24 plus 255, 2^31-1, -2^31, error-index 0..1, response echoes the request's bindings",
-               "box 2: error-status in {2, 5, 19}, error-index -2..5, n = 0..3 bindings in the response", "1..3 OIDs in the request", "walk / bulkwalk / table: the error also scripted for the 2nd response only (status 2 there may end the walk, as documented)", "operations get, multiget, getnext, multigetnext, set, multiset, bulkget, walk, bulkwalk, table",
+               "box 2: error-status in {2, 5, 19}, error-index -2..5, n = 0..3 bindings in the response", "1..3 OIDs in the request", "walk / bulkwalk / table: the error also scripted for the 2nd response only (status 2 there may end the walk, as documented)", "operations get, multiget, getnext, multigetnext, set, multiset, bulkget, walk, bulkwalk, table, and walk / multiwalk in lenient mode (errors=\"warn\")",
                "v1, v2c, v3 noAuthNoPriv / authNoPriv(MD5) / authPriv(SHA-1 + harness cipher)"],
     "outside": ["error-status values other than the listed ones (the dict lookup in ErrorResponse.construct forces enumeration)"],
     "stubs": ["sender = trampoline", "get_request_id pinned", "privacy plug-in = harness stream cipher"],
@@ -56,6 +56,10 @@ def run_op(world, op, noids):
         return world.run(c.bulkget(oids[:1], oids[1:] or oids[:1], max_list_size=2))
     if op == "walk":
         return world.collect(c.walk(C.poid(C.ROOTS["A"])))
+    if op == "walk-warn":
+        return world.collect(c.walk(C.poid(C.ROOTS["A"]), errors="warn"))
+    if op == "multiwalk-warn":
+        return world.collect(c.multiwalk([C.poid(C.ROOTS["A"]), C.poid(C.ROOTS["C"])], errors="warn"))
     if op == "bulkwalk":
         return world.collect(c.bulkwalk([C.poid(C.ROOTS["A"])], bulk_size=2))
     if op == "table":
@@ -63,7 +67,7 @@ def run_op(world, op, noids):
     raise ValueError(op)
 
 
-SINGLE = ("get", "getnext", "set", "walk", "bulkwalk", "table")
+SINGLE = ("get", "getnext", "set", "walk", "bulkwalk", "table", "walk-warn", "multiwalk-warn")
 
 
 def make_harness(kind, op, box, traced=False, which=1):
@@ -194,6 +198,12 @@ def jobs(tier):
             out.append(Job(f"{kind}-{op}-allstatus", make_harness(kind, op, "status"),
                            [Arg("status_sel", STATUS_LO, STATUS_HI), Arg("index", 0, 1), Arg("nresp", 0, 0), Arg("noids", 1, 3)],
                            timeout=400 if quick else 1200, mode="E/concolic-window", functions=funcs, sample_every=7))
+            if op == "walk" and kind in ("v1", "v2c", "md5"):
+                for wop in ("walk-warn", "multiwalk-warn"):
+                    for which in (1, 2):
+                        out.append(Job(f"{kind}-{wop}-allstatus-response{which}", make_harness(kind, wop, "status", which=which),
+                                       [Arg("status_sel", STATUS_LO, STATUS_HI), Arg("index", 0, 1), Arg("nresp", 0, 0), Arg("noids", 1, 3)],
+                                       timeout=400 if quick else 1200, mode="E/concolic-window", functions=funcs, sample_every=7))
             if op in ("walk", "bulkwalk", "table"):
                 out.append(Job(f"{kind}-{op}-allstatus-2nd-response", make_harness(kind, op, "status", which=2),
                                [Arg("status_sel", STATUS_LO, STATUS_HI), Arg("index", 0, 1), Arg("nresp", 0, 0), Arg("noids", 1, 3)],
